@@ -1374,7 +1374,7 @@ class TenSym(PySym):
         if cn == "iter" and len(n.args) == 1:
             return list(self.iterate(self.ex(n.args[0])))
         # ---- a function value obtained from a container / expression: table[key](args)
-        if isinstance(n.func, (ast.Subscript, ast.Call, ast.IfExp)):
+        if isinstance(n.func, (ast.Subscript, ast.Call, ast.IfExp, ast.Lambda)):
             f = self.ex(n.func)
             if isinstance(f, tuple) and f[:1] == ("<lambda>",):
                 return self.apply_lambda(f, [self.ex(a) for a in n.args])
